@@ -125,7 +125,9 @@ class Printer:
             ln = self.emit(ind, "local v%d: function()%s = f0" % (s[1], QUALS[s[2]]))
             out += [str(ln), "L", str(s[1]), str(s[2])]
         elif t == 'funcassign':
-            ln = self.emit(ind, "function v%d()" % s[1])
+            # ids >= 100 are declared functions (`local function f101() end function f101() end` redefines f101,
+            # or defines it after a <forwarddecl>), ids in FPBASE.. are function-pointer variables
+            ln = self.emit(ind, "function %s%d()" % ("f" if s[1] >= 100 else "v", s[1]))
             out += [str(ln), "FA", str(s[1])]
             self.block(s[2], ind + 1, out)
             self.emit(ind, "end")
@@ -140,6 +142,10 @@ class Printer:
             self.forced(ind, "UF", s[1], out)
         elif t == 'assignf':
             self.forced(ind, "AF", s[1], out)
+        elif t == 'func' and len(s) > 4 and s[4] == 'fwd':
+            # forward declaration: the model sees a declared function with an empty body
+            ln = self.emit(ind, "local function f%d() <forwarddecl> end" % s[1])
+            out += [str(ln), "F", str(s[1]), "0", "(", ")"]
         elif t == 'func':
             ln = self.emit(ind, "local function f%d(%s)" % (s[1], ", ".join("v%d: integer" % p for p in s[2])))
             out += [str(ln), "F", str(s[1]), str(len(s[2]))] + [str(p) for p in s[2]]
@@ -221,7 +227,7 @@ def force_refs(b, rng, prob=1.0):
         t = s[0]
         if t == 'use' and rng.random() < prob: out.append(('usef', s[1]))
         elif t == 'assign' and rng.random() < prob: out.append(('assignf', s[1]))
-        elif t == 'func': out.append(('func', s[1], s[2], force_refs(s[3], rng, prob)))
+        elif t == 'func': out.append(('func', s[1], s[2], force_refs(s[3], rng, prob)) + tuple(s[4:]))
         elif t == 'funcassign': out.append(('funcassign', s[1], force_refs(s[2], rng, prob)))
         elif t in ('do', 'while', 'repeat', 'for', 'defer'): out.append((t, force_refs(s[1], rng, prob)))
         elif t == 'if': out.append(('if', force_refs(s[1], rng, prob), force_refs(s[2], rng, prob)))
@@ -327,6 +333,7 @@ class Gen:
 
     def program(self):
         self.nfun = 100
+        self.fun_fd = {}; self.promoted = set(); self.nested_refd = set()
         cx = dict(vars=[(1, 0, 1), (2, 0, 1)], funs=[(100, 1)], labels=[], loop=False, depth=0, fd=1)
         pre = [('local', 1, 0), ('local', 2, 0), ('func', 100, [3], [('use', 3)])]
         return pre + self.block(cx, 3, 7)
@@ -364,6 +371,17 @@ class Gen:
                 x = FPBASE + r.randint(0, 3); q = r.choice([0, 0, 1, 2])
                 cx['vars'].append((x, q, cx['fd']))
                 return ('local', x, q)
+            if k < 0.14 and not deep and r.random() < 0.35:
+                # `function f() ... end` over a declared function of the SAME function: accepted by design (the
+                # function is promoted to a variable).  Region: the function has no parameters, was not referenced
+                # from another function body so far, and is never referenced from one afterwards (self.promoted)
+                cands = [fid for (fid, ar) in cx['funs'] if ar == 0 and self.fun_fd.get(fid) == cx['fd']
+                         and fid not in self.nested_refd and fid not in cx.get('inside', ())]
+                if cands:
+                    x = r.choice(cands)
+                    self.promoted.add(x)
+                    icx = dict(cx, loop=False, depth=cx['depth'] + 1, fd=cx['fd'] + 1, labels=[])
+                    return ('funcassign', x, self.block(icx, 0, 3))
             if k < 0.14 and not deep:
                 fps = [v for v in cx['vars'] if v[0] >= FPBASE]
                 x = r.choice(fps)[0] if fps and r.random() < 0.9 else FPBASE + r.randint(0, 3)
@@ -382,12 +400,19 @@ class Gen:
                 fid = self.nfun
                 ps = [r.randint(1, 6) for _ in range(r.randint(0, 2))]
                 cx['funs'].append((fid, len(ps)))
+                self.fun_fd[fid] = cx['fd']
+                if not ps and r.random() < 0.12:
+                    return ('func', fid, [], [], 'fwd')
                 icx = dict(cx, loop=False, depth=cx['depth'] + 1, fd=cx['fd'] + 1, labels=[],
                            vars=cx['vars'] + [(p, 0, cx['fd'] + 1) for p in ps])
                 return ('func', fid, ps, self.block(icx, 1, 4))
             if k < 0.90:
                 if cx['funs'] and r.random() < 0.97:
                     fid, ar = r.choice(cx['funs'])
+                    if self.fun_fd.get(fid, cx['fd']) != cx['fd']:
+                        if fid in self.promoted:
+                            return ('do', [])
+                        self.nested_refd.add(fid)
                     n = r.choice([ar, ar, max(0, ar - 1), ar + 1]) if r.random() < 0.25 else ar
                     return ('call', fid, n)
                 return ('call', 100 + r.randint(1, 3), 0)
@@ -565,6 +590,14 @@ def targeted(rng, ntypes=1):
         [('local', 4, 2), ('func', 101, [], [('func', 102, [], [('use', 4)])])],
         [('local', 50, 0), ('funcassign', 50, [])], [('local', 50, 1), ('funcassign', 50, [])], [('local', 50, 2), ('funcassign', 50, [])],
         [('funcassign', 51, [])], [('funcassign', 50, []), ('local', 50, 0)],
+        # a declared / forward declared function is redefinable in its own function (1fc2b5c exemption)
+        [('func', 101, [], []), ('funcassign', 101, [])], [('func', 101, [], []), ('funcassign', 101, []), ('funcassign', 101, []), ('call', 101, 0)],
+        [('func', 102, [], [], 'fwd'), ('funcassign', 102, [])], [('func', 102, [], [], 'fwd'), ('call', 102, 0), ('funcassign', 102, []), ('funcassign', 102, []), ('call', 102, 0)],
+        [('func', 101, [], []), ('do', [('funcassign', 101, [])]), ('defer', [('funcassign', 101, [])])], [('funcassign', 101, [])],
+        [('funcassign', 101, []), ('func', 101, [], [])], [('local', 4, 0), ('func', 101, [], []), ('funcassign', 101, [('use', 4)])],
+        [('local', 4, 2), ('func', 102, [], [], 'fwd'), ('funcassign', 102, [('use', 4)])], [('func', 101, [], []), ('funcassign', 101, [('break',)])],
+        [('func', 101, [], []), ('while', [('funcassign', 101, [('label', 1), ('goto', 1)])])], [('do', [('func', 101, [], [])]), ('funcassign', 101, [])],
+        [('func', 102, [], [], 'fwd'), ('call', 102, 1), ('funcassign', 102, [])],
         [('local', 50, 0), ('func', 101, [], [('funcassign', 50, [])])], [('local', 50, 0), ('funcassign', 50, [('funcassign', 50, [])])],
         [('local', 50, 0), ('local', 4, 0), ('funcassign', 50, [('use', 4)])], [('local', 50, 0), ('local', 4, 2), ('funcassign', 50, [('use', 4)])],
         [('local', 50, 1), ('do', [('local', 50, 0), ('funcassign', 50, [])])], [('local', 50, 0), ('do', [('local', 50, 1)]), ('funcassign', 50, [])],
@@ -573,8 +606,11 @@ def targeted(rng, ntypes=1):
     consts = [[('index', ln, k)] for ln in (1, 4, 256) for k in LATTICE] + \
              [[('conv', t, v, sk, sr)] for t in range(ntypes) for v in LATTICE[::3] for sk in SINKS for sr in SOURCES[:3]] + \
              [[('conv', t, v, sk, sr)] for t in range(ntypes) for v in (0, 1, 200, 300, -1, 70000) for sk in SINKS for sr in SOURCES]
-    fam = r.choice(["flow", "flow", "labels", "labels", "names", "consts", "consts"])
-    if fam == "flow": core = r.choice(flow)
+    fam = r.choice(["flow", "flow", "labels", "labels", "names", "names", "consts", "consts"])
+    if fam == "names" and r.random() < 0.4:
+        # function definition over an existing name (variable, function, forward declaration)
+        core = r.choice([c for c in names if any(x[0] == 'funcassign' or (x[0] in ('do', 'while', 'func', 'defer') and 'funcassign' in repr(x)) for x in c)])
+    elif fam == "flow": core = r.choice(flow)
     elif fam == "labels": core = r.choice(labels)
     elif fam == "names": core = r.choice(names)
     else: core = r.choice(consts)
